@@ -273,30 +273,38 @@ func DirectiveState(l *lexer) stateFn {
 func DirectiveOtherState(l *lexer) stateFn {
 	if l.acceptOnlyAlphaWord("type") {
 		l.emit(TypeDirective)
+		return rootState // one directive per %: what follows is ordinary text, even if it spells a keyword
 	}
 	if l.acceptOnlyAlphaWord("token") {
 		l.emit(TokenDirective)
+		return rootState // one directive per %: what follows is ordinary text, even if it spells a keyword
 	}
 	if l.acceptOnlyAlphaWord("union") {
 		return DirectiveUnionState
 	}
 	if l.acceptOnlyAlphaWord("left") {
 		l.emit(LeftAssoc)
+		return rootState // one directive per %: what follows is ordinary text, even if it spells a keyword
 	}
 	if l.acceptOnlyAlphaWord("right") {
 		l.emit(RightAssoc)
+		return rootState // one directive per %: what follows is ordinary text, even if it spells a keyword
 	}
 	if l.acceptOnlyAlphaWord("nonassoc") {
 		l.emit(NoneAssoc)
+		return rootState // one directive per %: what follows is ordinary text, even if it spells a keyword
 	}
 	if l.acceptOnlyAlphaWord("prec") {
 		l.emit(PrecDirective)
+		return rootState // one directive per %: what follows is ordinary text, even if it spells a keyword
 	}
 	if l.acceptOnlyAlphaWord("precedence") {
 		l.emit(Precedence)
+		return rootState // one directive per %: what follows is ordinary text, even if it spells a keyword
 	}
 	if l.acceptOnlyAlphaWord("start") {
 		l.emit(StartDirective)
+		return rootState // one directive per %: what follows is ordinary text, even if it spells a keyword
 	}
 	return rootState
 }
